@@ -1238,6 +1238,44 @@ func c03Case(w *core.Worker, i int) {
 			}
 		}
 	}
+	// LATERAL joins whose left side holds no record: the derived table is never evaluated for a record, yet the joined source
+	// has the fields of both sides — an aggregate over it counts nothing, and as the right side of an outer join it pads
+	// every row of the preserved side
+	{
+		core.WriteFiles(w.Work, map[string]string{"e4.csv": "id,k,v,s\n"})
+		for _, jn := range []string{", LATERAL %s x", " CROSS JOIN LATERAL %s x", " INNER JOIN LATERAL %s x ON 1 = 1", " LEFT JOIN LATERAL %s x ON 1 = 1", " JOIN LATERAL %s x USING (k)"} {
+			src := "e4" + fmt.Sprintf(jn, "(SELECT w, k FROM b WHERE b.k = e4.k OR b.id > 0)")
+			wantWidth := 6
+			if strings.Contains(jn, "USING") {
+				wantWidth = 5
+			}
+			q := "SELECT * FROM " + src
+			if res := s.Exec(q); res.Err != nil || len(res.Views) != 1 {
+				viol("query-error", q, fmt.Sprint(res.Err), "", "")
+			} else if len(res.Views[0].Rows) != 0 || len(res.Views[0].Header) != wantWidth {
+				viol("rows-differ:lateral-over-empty-left-side", q, fmt.Sprintf("expected no row and %d fields, got %d rows and the fields %v", wantWidth, len(res.Views[0].Rows), res.Views[0].Header), fmt.Sprint(res.Views[0].Header), fmt.Sprint(wantWidth))
+			}
+			q = "SELECT COUNT(*), COUNT(x.w), COUNT(e4.id) FROM " + src
+			if res := s.Exec(q); res.Err != nil || len(res.Views) != 1 || len(res.Views[0].Rows) != 1 {
+				viol("query-error", q, fmt.Sprint(res.Err), "", "")
+			} else if row := res.Views[0].Rows[0]; row[0].S != "0" || row[1].S != "0" || row[2].S != "0" {
+				viol("rows-differ:lateral-over-empty-left-side", q, "expected 0, 0, 0", fmt.Sprint(valsToStrs(row)), "[0 0 0]")
+			}
+			q = "SELECT a.id, d.w, d.eid FROM a LEFT JOIN (SELECT e4.id AS eid, x.w FROM " + src + ") d ON a.id = d.eid OR d.eid IS NULL"
+			if res := s.Exec(q); res.Err != nil || len(res.Views) != 1 {
+				viol("query-error", q, fmt.Sprint(res.Err), "", "")
+			} else {
+				bad := len(res.Views[0].Rows) != na
+				for _, row := range res.Views[0].Rows {
+					bad = bad || len(row) != 3 || !row[1].IsNull() || !row[2].IsNull()
+				}
+				if bad {
+					viol("rows-differ:lateral-over-empty-left-side", q, fmt.Sprintf("expected the %d rows of a, each padded with two NULLs; got %d rows", na, len(res.Views[0].Rows)), truncateStr(res.Views[0].String(), 300), "")
+				}
+			}
+			judged += 3
+		}
+	}
 	// recursive common table expressions whose iterations repeat rows (the anchor holds duplicates and NULLs): UNION ALL keeps
 	// every row of every iteration, UNION keeps each distinct row once
 	{
